@@ -21,6 +21,11 @@ var props = map[string]struct {
 	"C06":    {"exploration", h.C06},
 	"C07":    {"exploration", h.C07},
 	"C12":    {"model_checking", h.C12},
+	"C14":    {"model_checking", h.C14},
+	"C15":    {"model_checking", h.C15},
+	"C16":    {"model_checking", h.C16},
+	"C17":    {"model_checking", h.C17},
+	"C31":    {"model_checking", h.C31},
 	"C30":    {"exploration", h.C30},
 }
 
